@@ -6,7 +6,6 @@ import (
 	"strings"
 	"unicode/utf8"
 
-
 	"verifmon/internal/core"
 	"verifmon/internal/gen"
 )
